@@ -44,7 +44,8 @@ def translate(notes, harness=None):
         notes.append("translator failed: " + r.stdout[-300:]); return None
     tr = json.load(open(rep))
     obs = [k for k, v in tr["items"].items() if v.get("how") not in (None, "translated")]
-    notes.append("translator: %d items regenerated from the sources, observed instead of translated=%s, missing=%s, changed=%s" % (len(tr["items"]), obs, tr["missing"], tr["changed"]))
+    notes.append("translator: %d items regenerated from the sources, observed instead of translated=%s, missing=%s, changed=%s" % (
+        len(tr["items"]), ["%s (%s)" % (k, tr["items"][k]["how"]) for k in obs], tr["missing"], tr["changed"]))
     return tr
 
 
